@@ -67,7 +67,7 @@ def base_spec(b, start):
     else:
         # long: work spread by the weekly limit over one or two year ends
         tasks = [T("a", b["long_effort_h"] * 60), T("b", 300, "r2", deps=[{"ref": "a", "gap": "1w"}])]
-    spec["resources"] = [r1, r2]
+    spec["resources"] = [r1, r2] if b["lim"] != "gweekly" else [{"id": "grp", "limits": {"weeklymax": "6h"}, "children": [r1, r2]}]
     spec["tasks"] = tasks
     return spec
 
@@ -76,7 +76,7 @@ def bases(tier):
     out = []
     for cal in ("default", "night", "split"):
         for lv in ("none", "res", "proj"):
-            for lim in ("none", "daily", "weekly"):
+            for lim in ("none", "daily", "weekly", "gweekly"):   # gweekly: the limit sits on the group above both resources
                 for mode in ("asap", "alap-end"):
                     for pin in (False, True):
                         out.append({"cal": cal, "lv": lv, "lim": lim, "mode": mode, "pin": pin, "dur": "3w"})
